@@ -429,9 +429,41 @@ class Shapes:
         return None
 
 
-def guard_len(facts: list[tuple[str, bool]], subject: str) -> int:
+def module_int_consts(mod) -> dict[str, object]:
+    """Module-level names bound once to an integer, or to a tuple / set / frozenset of integers (other such names allowed inside)."""
+    out: dict[str, object] = {}
+
+    def val(node: ast.AST) -> object:
+        if isinstance(node, ast.Constant) and isinstance(node.value, int) and not isinstance(node.value, bool):
+            return node.value
+        if isinstance(node, ast.Name) and node.id in out:
+            return out[node.id]
+        if isinstance(node, (ast.Tuple, ast.Set, ast.List)):
+            vs = [val(e) for e in node.elts]
+            return frozenset(vs) if vs and all(isinstance(v, int) for v in vs) else None
+        if isinstance(node, ast.Call) and dotted(node.func) in ("frozenset", "set", "tuple") and len(node.args) == 1 and not node.keywords:
+            return val(node.args[0])
+        return None
+
+    stores: dict[str, int] = {}
+    for st in mod.tree.body:
+        for t in (st.targets if isinstance(st, ast.Assign) else [st.target] if isinstance(st, ast.AnnAssign) else []):
+            if isinstance(t, ast.Name):
+                stores[t.id] = stores.get(t.id, 0) + 1
+    for st in mod.tree.body:
+        if isinstance(st, (ast.Assign, ast.AnnAssign)) and st.value is not None:
+            for t in (st.targets if isinstance(st, ast.Assign) else [st.target]):
+                if isinstance(t, ast.Name) and stores.get(t.id) == 1:
+                    v = val(st.value)
+                    if v is not None:
+                        out[t.id] = v
+    return out
+
+
+def guard_len(facts: list[tuple[str, bool]], subject: str, consts: dict[str, object] | None = None) -> int:
     """Lower bound on len(subject) implied by branch facts (text, truth) known on every path to the use."""
     lo = 0
+    consts = consts or {}
     for text, truth in facts:
         try:
             t = ast.parse(text, mode="eval").body
@@ -446,7 +478,19 @@ def guard_len(facts: list[tuple[str, bool]], subject: str) -> int:
                 return isinstance(x, ast.Call) and dotted(x.func) == "len" and len(x.args) == 1 and unparse(x.args[0]) == subject
 
             def const(x: ast.AST) -> int | None:
+                if isinstance(x, ast.Name) and isinstance(consts.get(x.id), int):
+                    return consts[x.id]  # type: ignore[return-value]
                 return x.value if isinstance(x, ast.Constant) and isinstance(x.value, int) and not isinstance(x.value, bool) else None
+
+            def const_set(x: ast.AST) -> frozenset | None:
+                if isinstance(x, ast.Name) and isinstance(consts.get(x.id), frozenset):
+                    return consts[x.id]  # type: ignore[return-value]
+                if isinstance(x, (ast.Tuple, ast.Set, ast.List)) and x.elts and all(const(e) is not None for e in x.elts):
+                    return frozenset(const(e) for e in x.elts)
+                return None
+
+            if is_len(left) and isinstance(op, (ast.In, ast.NotIn)) and const_set(right) is not None and truth == isinstance(op, ast.In):
+                lo = max(lo, min(const_set(right)))  # type: ignore[type-var]
 
             if is_len(right) and const(left) is not None:  # k OP len(X)  ->  len(X) OP' k
                 mirror = {ast.Lt: ast.Gt, ast.LtE: ast.GtE, ast.Gt: ast.Lt, ast.GtE: ast.LtE, ast.Eq: ast.Eq, ast.NotEq: ast.NotEq}
